@@ -70,7 +70,17 @@ def regenerate_sites():
     return out.strip().splitlines()[-1]
 
 
+def regenerate_clients():
+    ok, log = common.go_build(["clientgen"])
+    if not ok:
+        raise RuntimeError(log[-3000:])
+    rc, out = sh([os.path.join(HARNESS, "bin", "clientgen"), "/repo", os.path.join(COQ, "Client/ClientGen.v")], timeout=300)
+    if rc != 0:
+        raise RuntimeError("clientgen failed:\n" + out[-3000:])
+    return out.strip().splitlines()
+
+
 def regenerate_all():
     info = {"ber": regenerate_ber(), "routes": regenerate_routes(), "dict": regenerate_dict(), "tags": regenerate_tags(),
-            "sites": regenerate_sites()}
+            "sites": regenerate_sites(), "clients": regenerate_clients()}
     return info
